@@ -234,6 +234,9 @@ def finish(pid, tier, results, t0, meta):
             errors.append(r)
 
     os.makedirs(os.path.join(EVDIR, 'replay'), exist_ok=True)
+    import glob
+    for old in glob.glob(os.path.join(EVDIR, 'replay', pid + '.*.json')):
+        os.remove(old)
     lines = []
     for f, full in known:
         lines.append('KNOWN-FINDING: property=%s %s (%s)' % (pid, f['what'], f['id']))
